@@ -472,6 +472,8 @@ type cacheObs struct {
 	ErrKeys []string
 	RefErr  bool
 	Panic   string
+	Auto    bool
+	DirErrs []string
 }
 
 func observeCache(c *cdi.Cache, probes []string, refresh bool) cacheObs {
@@ -506,6 +508,10 @@ func observeCache(c *cdi.Cache, probes []string, refresh bool) cacheObs {
 			}
 		}
 		dirErrs := c.GetSpecDirErrors()
+		for k := range dirErrs {
+			o.DirErrs = append(o.DirErrs, k)
+		}
+		sort.Strings(o.DirErrs)
 		for k := range c.GetErrors() {
 			if _, isDir := dirErrs[k]; isDir {
 				continue
@@ -556,12 +562,12 @@ func (o *cacheObs) term() string {
 		}
 		vitems[i] = hx.P(hx.S(v), hx.L(l))
 	}
-	return hx.C("mkObs01", hx.LS(o.Devices), hx.L(probes), hx.LS(o.Vendors), hx.LS(o.Classes), hx.L(vitems), hx.LS(o.ErrKeys), hx.B(o.RefErr))
+	return hx.C("mkObs01", hx.LS(o.Devices), hx.L(probes), hx.LS(o.Vendors), hx.LS(o.Classes), hx.L(vitems), hx.LS(o.ErrKeys), hx.B(o.RefErr), hx.B(o.Auto), hx.LS(o.DirErrs))
 }
 
 // settle polls an auto-refresh cache until its observation equals the one of a freshly built manual cache on the same
 // directories (deadline), and returns the last observation.
-func settle(c *cdi.Cache, dirs []string, probes []string, deadline time.Duration) cacheObs {
+func settle(c *cdi.Cache, dirs []string, probes []string, deadline time.Duration, wantDirErrs []string) cacheObs {
 	fresh := cdi.NewCache // placeholder to keep the import used when building without auto mode
 	_ = fresh
 	ref, _ := cdi.NewCache(cdi.WithSpecDirs(dirs...), cdi.WithAutoRefresh(false))
@@ -570,9 +576,25 @@ func settle(c *cdi.Cache, dirs []string, probes []string, deadline time.Duration
 	var got cacheObs
 	for {
 		got = observeCache(c, probes, true)
-		if got.key() == want.key() || time.Now().After(end) {
+		if (got.key() == want.key() && fmt.Sprint(got.DirErrs) == fmt.Sprint(wantDirErrs)) || time.Now().After(end) {
 			return got
 		}
 		time.Sleep(5 * time.Millisecond)
 	}
+}
+
+
+// missingDirs: the configured directories that do not exist (sorted, without repetitions): what an automatic-refresh cache
+// reports as directory errors.
+func (fs *absFS) missingDirs() []string {
+	seen := map[string]bool{}
+	out := []string{}
+	for _, d := range fs.Dirs {
+		if d.State == dirMissing && !seen[d.Path] {
+			seen[d.Path] = true
+			out = append(out, d.Path)
+		}
+	}
+	sort.Strings(out)
+	return out
 }
